@@ -654,8 +654,9 @@ theorem liquidate_drift {E : Env} {g : Int} {now : Int} {s s' : St} {keeper owne
     rename_i s4 hupd
     obtain ⟨F3, -⟩ := sendB_frame hsend
     obtain ⟨old, hold, e4⟩ := updateCdpIdx_spec hupd
-    dsimp only at F3
-    refine ⟨id, c0, s1, c1, hf, hsync, fin s4 _ _ (by rw [e4]; dsimp only; rw [upd_same]) (by rw [e4]; dsimp only; rw [F3.nextId, S.nextId])
+    refine ⟨id, c0, s1, c1, hf, hsync, fin s4
+      (⟨c1.owner, c1.ty, c1.coll - rewardOf c1.coll cp.keeperReward, c1.prin, c1.fees, c1.updated, c1.ifac⟩ : Cdp) deps'
+      (by rw [e4]; dsimp only; rw [upd_same]) (by rw [e4]; dsimp only; rw [F3.nextId, S.nextId])
       ?_ (by rw [e4]; dsimp only; rw [F3.tprin, S.tprin]) hty1 rfl h⟩
     intro j hj
     rw [e4]; dsimp only
